@@ -39,8 +39,8 @@ impl SimulationBoundary {
         ];
 
         Self {
-            anchor: anchor - width,
-            inverse_width: 1. / (3. * width),
+            anchor: anchor - 1.5 * width,
+            inverse_width: 1. / (4. * width),
             dimensionality,
             clipping_planes,
         }
